@@ -144,3 +144,31 @@ func TestF16_SharedFidWalkRace(t *testing.T) {
 	}
 	wg.Wait()
 }
+
+// F-27: requests a client sends concurrently on one directory fid close and reopen the
+// directory under each other's Readdir: nil dereference inside os.(*File).readdir, which
+// takes the whole server down.
+func TestF27_ConcurrentDirReadsOnOneFid(t *testing.T) {
+	_, root := tree(t)
+	for i := 0; i < 300; i++ {
+		os.WriteFile(filepath.Join(root, "d", "f"+string(rune('a'+i%26))+string(rune('a'+i/26))), []byte("x"), 0o644)
+	}
+	c, _ := ufsClient(t, root, 8192, false)
+	f, err := c.FOpen("d", g.OREAD)
+	if err != nil {
+		t.Fatal(err)
+	}
+	var wg sync.WaitGroup
+	for w := 0; w < 8; w++ {
+		wg.Add(1)
+		go func() {
+			defer wg.Done()
+			for i := 0; i < 300; i++ {
+				tc := c.NewFcall()
+				g.PackTread(tc, f.Fid.Fid, 0, 8192)
+				c.Rpc(tc)
+			}
+		}()
+	}
+	wg.Wait()
+}
